@@ -568,6 +568,13 @@ func Edits(d *Dialect) []Edit {
 		)
 	case SQLite:
 		es = append(es,
+			// a named foreign key moves to another column and a new key takes over its old columns.
+			Edit{"fk_moved_and_new_fk_over_its_old_columns", []string{"fk:fk_a", "fk:fk_b", "col:z0", "col:a"}, func(s *schema.Schema) {
+				t, p := T(s, "t"), T(s, "p")
+				F(t, "fk_a").Columns = []*schema.Column{C(t, "z0")}
+				t.AddForeignKeys(&schema.ForeignKey{Symbol: "fk_b", Table: t, Columns: []*schema.Column{C(t, "a")}, RefTable: p, RefColumns: []*schema.Column{C(p, "id")},
+					OnUpdate: schema.SetNull, OnDelete: schema.Cascade})
+			}, []string{mt("ModifyForeignKey(fk_a)[column]"), mt("AddForeignKey(fk_b)")}},
 			// the last declared unnamed foreign key (ordinal 0) is dropped: a fresh inspection numbers the
 			// remaining one 0.
 			Edit{"unnamed_fk_last_declared_dropped", []string{"table:u"}, func(s *schema.Schema) {
@@ -626,6 +633,9 @@ func Equivalences(d *Dialect) []Edit {
 				c.AddAttrs(&postgres.Identity{Generation: "ALWAYS"})
 			}, nil},
 			Edit{"index_type_btree_explicit", nil, func(s *schema.Schema) { I(T(s, "t"), "idx_a").AddAttrs(&postgres.IndexType{T: "BTREE"}) }, nil},
+			Edit{"index_predicate_wrapped", nil, func(s *schema.Schema) {
+				I(T(s, "t"), "idx_d_part").Attrs = []schema.Attr{&postgres.IndexPredicate{P: "(d > 0)"}}
+			}, nil},
 			Edit{"generated_name_index_left_unnamed", nil, func(s *schema.Schema) { I(T(s, "t"), "t_c_key").Name = "" }, nil},
 			Edit{"check_expr_wrapped", nil, func(s *schema.Schema) {
 				c, _ := checkOf(T(s, "t"), "ck_a")
@@ -641,6 +651,9 @@ func Equivalences(d *Dialect) []Edit {
 				c.Expr = "(a > 0)"
 			}, nil},
 			Edit{"comment_ignored", nil, func(s *schema.Schema) { T(s, "t").SetComment("x") }, nil},
+			Edit{"index_predicate_wrapped", nil, func(s *schema.Schema) {
+				I(T(s, "t"), "idx_d_part").Attrs = []schema.Attr{&sqlite.IndexPredicate{P: "(d > 0)"}}
+			}, nil},
 		)
 	}
 	return es
